@@ -45,6 +45,9 @@ func (eq equator) equalMessage(mx, my pref.Message) bool {
 	nx := 0
 	equal := true
 	mx.Range(func(fd pref.FieldDescriptor, vx pref.Value) bool {
+		if eq.ignoreField(fd) {
+			return true // ignored whether or not my has it
+		}
 		nx++
 		vy := my.Get(fd)
 		equal = my.Has(fd) && eq.equalField(fd, vx, vy)
@@ -55,7 +58,9 @@ func (eq equator) equalMessage(mx, my pref.Message) bool {
 	}
 	ny := 0
 	my.Range(func(fd pref.FieldDescriptor, vx pref.Value) bool {
-		ny++
+		if !eq.ignoreField(fd) {
+			ny++
+		}
 		return true
 	})
 	if nx != ny {
@@ -65,11 +70,16 @@ func (eq equator) equalMessage(mx, my pref.Message) bool {
 	return eq.equalUnknown(mx.GetUnknown(), my.GetUnknown())
 }
 
+// ignoreField reports whether fd takes no part in the comparison.
+// This is the case we've added, ignore PullResponse.Change.change_time
+func (eq equator) ignoreField(fd pref.FieldDescriptor) bool {
+	return fd.Name() == "change_time" && fd.ContainingMessage().Name() == "Change"
+}
+
 // equalField compares two fields.
 func (eq equator) equalField(fd pref.FieldDescriptor, x, y pref.Value) bool {
 	switch {
-	// This is the case we've added, ignore PullResponse.Change.change_time
-	case fd.Name() == "change_time" && fd.ContainingMessage().Name() == "Change":
+	case eq.ignoreField(fd):
 		return true
 	case fd.IsList():
 		return eq.equalList(fd, x.List(), y.List())
